@@ -44,11 +44,16 @@ PROPS["C09"] = {
     "rule": ("cases = (a) each primitive domain of go/pkg/types.go (all pairs and triples over boundary + random values; for "
              "float64 every class: NaNs with payloads and either sign, +-0, +-inf, subnormals, extremes), (b) per generated "
              "otelstef type (all 30 structs/oneofs/arrays/multimaps) pools of values built through the public setters - "
-             "equal copies, near-equal mutants, optional fields set/unset, frozen dictionary structs - with Cmp/IsEqual on "
+             "equal copies (the second copy of every base with other values stored in its absent optional fields: "
+             "Set(v)+Unset), near-equal mutants, optional fields present / absent after Set+Unset / absent untouched, "
+             "frozen dictionary structs - with Cmp/IsEqual on "
              "all pairs, transitivity on all triples, Clone and CopyFrom (into fresh and into used destinations) with "
              "equality and two-way independence under further mutation, once with plain floats (no NaN, no -0: every "
              "failure is a fresh violation) and for 10 types again with all float classes (failures explained by NaN/-0 go "
-             "to the listed signatures), (c) mutation attempts on frozen Resource/Scope/Metric, (d) random histories of "
+             "to the listed signatures), plus directed pairs of HistogramValue / ExpHistogramValue / PointValue / Point "
+             "with the same data and different hidden state for every presence pattern (all present, all absent, mixed): "
+             "IsEqual, Cmp = 0 both ways, Clone keeps presence (the oracles of the repaired clone-loses-optional-presence "
+             "and cmp-stale-optional), (c) mutation attempts on frozen Resource/Scope/Metric, (d) random histories of "
              "mutate/CopyFrom/Clone/compare over three variables with an aliasing check after every step; op lines "
              "(prim/cmp/eq/clone/copy) are replayed on the Lean model; a value case is non-trivial when its canonical dump "
              "nests at least two levels (or one level with more than 24 characters); a history is non-trivial with >= 8 "
@@ -74,15 +79,24 @@ PROPS["C09"] = {
 }
 
 PROPS["C09"]["level_text"] = (
-    "Theorems (Stef/Props/C09.lean): each regenerated comparator (uint64, int64, bool, string/bytes) is a total order "
-    "(reflexive-zero, antisymmetric, transitive, =0 iff identical); generic lifting theorem: leaf total order => the "
-    "generated structural Cmp over ANY record tree (struct with optional presence, oneof, array, multimap, nil dict "
-    "pointer) is a total order with Cmp=0 iff identical; IsEqual iff same visible data; CopyFrom/copyToNew yield the "
-    "source's data for every prior destination; Clone for values without top-level optionals. Refuted from witnesses "
-    "(genuine defects, kept as known findings): Float64Compare with NaN / -0 (so Cmp is not transitive / not exact), "
-    "Clone drops optional presence, Cmp compares stored values of absent optionals; `_partial` theorems carry the "
-    "excluding hypotheses (no NaN, no -0; no top-level optional; clean absent fields). Tied to the code by regenerated "
-    "comparators and op-for-op differential runs on all 30 otelstef types.")
+    "Theorems (Stef/Props/C09.lean), all for ALL values (every float bit pattern, every shape, optional fields present "
+    "or absent with any stale stored value, nil dict pointers): each regenerated comparator (uint64, int64, bool, float64 "
+    "by IEEE totalOrder key, string/bytes) is a total order (reflexive-zero, antisymmetric, transitive, =0 iff "
+    "identical); generic lifting theorem cmp_total_order: leaf total order => the generated structural Cmp over ANY "
+    "record tree (struct with optional presence, oneof, array, multimap, nil dict pointer) is reflexive-zero, "
+    "antisymmetric, transitive and Cmp=0 iff the trees hold the same data (`data` erases the values STORED in absent "
+    "optional fields: hidden state; on trees without absent optionals Cmp=0 iff identical, cmp_zero_identical); "
+    "cmp_prim_total_order: the same over the real primitives, no hypothesis; IsEqual iff same data; "
+    "cmp_zero_iff_isEqual: Cmp=0 iff IsEqual; clone_equal, copyNew_equal: Clone / copyToNew results hold the source's "
+    "data, are IsEqual to it and compare 0, no hypothesis; copyFrom_equal: the same for CopyFrom over every prior "
+    "destination. Until /repo 82431a4 Clone dropped optional presence and Cmp<Struct> read stored values of absent "
+    "optionals (clone_equal and `IsEqual => Cmp=0` were refuted from witnesses and only `_partial` versions held); the "
+    "model follows the fix and both are proved in full. Still refuted from a witness: copyFrom_equal without its "
+    "hypothesis (copy<Multimap> guards primitive keys/values with Go's != : a -0.0 float directly used as multimap "
+    "key/value is not copied over +0.0; transcription of multimap.go.tmpl, unreachable in go/otel). Harness only "
+    "(model has no heap): copy independence, aliasing in histories, frozen values reject mutation (known findings "
+    "frozen-silent-mutation, frozen-mutation-before-panic). Tied to the code by regenerated comparators and op-for-op "
+    "differential runs (cmp/eq/clone/copy) on all 30 otelstef types.")
 
 RECV_TB = COMMON_TB + [
     "Impl model lean/Stef/Receiver.lean is a hand transcription of otelcol/internal/stefreceiver/stef.go (onStream) and "
